@@ -107,7 +107,7 @@ def classify(gtoks, sc):
     if len(set(got)) != len(got) or any(got[k] >= got[k + 1] for k in range(len(got) - 1)):
         return "resume-duplicate-delivery"
     if sc.get("ended") and sc["stream"] and any(g[0] > sc["stream"][-1][0] for g in got):
-        return "ended-session-still-served"
+        return LINK_ONCE if link_served_once(sc, gtoks, got) else "ended-session-still-served"
     if any(g not in exp for g in got):
         return "resume-delivered-not-after-lastseen"
     # got is strictly increasing and within exp: a gap = a message lost
@@ -119,6 +119,25 @@ def classify(gtoks, sc):
 
 
 ENDED_TAIL = "ended-session-tail-not-served"
+LINK_ONCE = "ended-link-served-once"      # open finding of C17, not a C04 matter
+
+
+def link_served_once(sc, gtoks, got):
+    """the open C17 finding `ended-link-served-once`, and nothing else: the reader is a services link,
+    its session was ended by an entry that emitted nothing for it, after its end it was handed messages
+    of exactly ONE batch, every one of them flagged for the (dead) link's id - i.e. services-directed,
+    the id is still in IRCServer.serverSessions - and the handler returned right after that batch."""
+    if not sc.get("is_link") or not sc.get("ended") or sc.get("end_event") is not None:
+        return False
+    if any("!timeout" in t or "panic" in t for t in gtoks):
+        return False
+    final = sc["stream"][-1][0]
+    late = [g for g in got if g[0] > final]
+    after = {b[0]: b for b in sc.get("after_end", [])}
+    if len({g[0] for g in late}) != 1 or late[0][0] not in after:
+        return False
+    flagged = [(late[0][0], m[0]) for m in after[late[0][0]][1] if sc["sess"] in m[2]]
+    return late == flagged and got[-len(late):] == late
 
 
 def _received(tok):
@@ -786,10 +805,14 @@ def gm_to_cases(spec, gl):
         on_node = {}            # client -> node of its current request
         ended = False           # the reader's session has ended: nothing produced later belongs to its stream
 
+        after_end = []
+
         def add0(i):
             entries.append(i)
             if i is not None and not ended:
                 stream.append(stream_by_id[i]); events.append(["a", 0]); toks.append("a=ok")
+            elif i is not None:
+                after_end.append(stream_by_id[i])
 
         def node1_applies(n):
             nonlocal p1
@@ -839,10 +862,41 @@ def gm_to_cases(spec, gl):
             sc["end_event"] = end_event
         if ended:
             sc["ended"] = True
+            sc["after_end"] = after_end
+        if any(st[0] == "m" and st[1] == c and st[2].startswith("SERVER ") for st in spec["steps"]):
+            sc["is_link"] = True
         if c == clients[0] and changed != "ok":
             sc["stream_changed"] = changed
         res.append((sc, " ".join(["res"] + toks + ["last=" + lasts.get(str(c), "0.0")])))
     return res, None
+
+
+C17_CORPUS = os.path.join(CORPUS, "10-c17-ended-link-served-once.json")
+
+
+def gm_known_c17(ck):
+    """called by props/c17.py: runs the deterministic handler-level scenario of the open C17 finding
+    `ended-link-served-once` on the tree under test and reports it under C17 (KNOWN-FINDING while the
+    line is in known_findings.txt; silent once the tree no longer shows it)"""
+    try:
+        specs = [c["gm"] for c in json.load(open(C17_CORPUS)).get("cases", [])]
+        res, out = run_gm(specs, "gmc17")
+    except Exception as ex:          # the C17 check itself must not fail because of this probe
+        ck.notes["c17_gm_probe"] = "not run: %s" % ex
+        return
+    if res is None:
+        ck.notes["c17_gm_probe"] = "handler-level driver did not build/run"
+        return
+    hits = 0
+    for sc, g in res:
+        why = monitor(sc, g)
+        if why and why[0] == LINK_ONCE:
+            hits += 1
+            ck.violation(LINK_ONCE, {"what": why[1], "cases": [sc], "case_line": gm_line(sc["gm"]), "impl_output": g[:2000],
+                                     "how_to_replay": "bin/check C04 --replay <this file> (handler-level gm driver)"}, concrete=True)
+        elif why and sc.get("is_link"):
+            ck.violation(why[0], {"what": why[1], "cases": [sc], "case_line": gm_line(sc["gm"]), "impl_output": g[:2000]}, concrete=True)
+    ck.notes["c17_gm_probe"] = {"scenarios": len(res), "ended_link_served_once": hits}
 
 
 def run_gm(specs, tag="gm"):
@@ -1130,6 +1184,12 @@ def run(ck, replay):
     ck.cov["samples"] = [{"case": lines[i][:1500], "impl": glines[i][:1500], "model": mlines[i][:1500]} for i in
                          ([0] if ncorpus else []) + [ncorpus, len(cases) - 1] if i < len(lines)][:3]
 
+    # `ended-link-served-once` is an open finding of C17 (bin/check C17 reports it through gm_known_c17):
+    # the link's own stream up to its end is complete, so it is counted here, not reported
+    c17 = [x for x in monfail if x[1][0] == LINK_ONCE]
+    ck.notes["c17_ended_link_served_once_scenarios"] = len(c17)
+    mism = [i for i in mism if i not in {i for i, _ in c17}]
+    monfail = [x for x in monfail if x[1][0] != LINK_ONCE]
     # failures explained by an open known finding neither hide other failures nor a broken tie
     known = {k["sig"] for k in vlib.known_findings(ck.prop)}
     explained = {i for i, _ in monfail}
